@@ -26,11 +26,12 @@ PID = "C19"
 CONTENT = {
     "c1": "CREATE TABLE users (id int PRIMARY KEY, name varchar(30) NOT NULL DEFAULT 'x');\n",
     "c2": "CREATE TABLE s1.a (x int, y decimal(10,2));\nCREATE SEQUENCE s1.sq START 1;\nALTER TABLE s1.a ADD UNIQUE (x);\n-- trailing comment\n",
+    "c4": "/* legacy section\n-- end of legacy section */\nCREATE TABLE keep_me (id int, note varchar(10)); -- trailing\n-- whole line\n# hash line\nCREATE TABLE second (x int);\n",
     "c3": "CREATE TABLE \"T\" (\"Id\" int, note varchar(10) COMMENT 'café да') STORED AS PARQUET;\n",
 }
-FILES = [("a.sql", "c1"), ("m.b.c.sql", "c2"), ("noext", "c1"), ("x.ddl", "c2"), ("y.hql", "c3"), ("z.bql", "c1"), ("w.txt", "c2"), ("k.json", "c1"),
+FILES = [("a.sql", "c1"), ("m.b.c.sql", "c2"), ("noext", "c1"), ("x.ddl", "c4"), ("y.hql", "c3"), ("z.bql", "c1"), ("w.txt", "c2"), ("k.json", "c1"),
          ("v.1.ddl", "c3")]
-ENCODINGS = {"c1": ["utf-8", "utf-16", "latin-1", "cp1251"], "c2": ["utf-8", "utf-16", "ascii"], "c3": ["utf-8", "utf-16", "utf-8-sig"]}
+ENCODINGS = {"c4": ["utf-8", "utf-16", "latin-1"], "c1": ["utf-8", "utf-16", "latin-1", "cp1251"], "c2": ["utf-8", "utf-16", "ascii"], "c3": ["utf-8", "utf-16", "utf-8-sig"]}
 
 
 def frec(name, content):
